@@ -313,6 +313,9 @@ class _rewrite_captured_vars(ast.NodeTransformer):
                 return None
             try:
                 lm = _parse_source_for_lambda(x, None)
+                if lm is not None and any(isinstance(n, ast.NamedExpr) for n in ast.walk(lm)):
+                    # An assignment expression rebinds a name: substituting arguments for it is wrong.
+                    return None
                 if lm is not None:
                     # The helper's own free variables are frozen with the helper's own closure.
                     lm = _rewrite_captured_vars(
